@@ -42,6 +42,8 @@ def corr_case(draw):
     nT = draw(st.sampled_from([0, 0, 1, 2, 3, 5, 50]))     # 0 = scalar T
     nT = nT if nT != 50 else draw(st.integers(4, 50))
     Ts = [draw(st.floats(300, 2500)) for _ in range(max(nT, 1))]
+    if draw(st.integers(0, 3)) == 0:
+        Ts = [int(round(t)) for t in Ts]        # whole-number temperatures typed as integers
     x = {a: draw(st.floats(0, 1)) for a in ADS}
     return {'species': sp, 'phase': phase, 'models': models, 'supplied': supplied,
             'add': draw(st.sampled_from(['default', 'default', True, False])), 'scalar_T': nT == 0, 'T': Ts,
